@@ -116,6 +116,7 @@ def run_impl(line):
 def check_impl(line, res):
     t = line.split(); op, a = t[0], t[1:]
     bad = lambda why: '%s: %s' % (op, why)
+    if line in KAT_EXPECT and res != KAT_EXPECT[line]: return bad('known answer is %s' % KAT_EXPECT[line])
     if op in ('serpent.enc', 'serpent.dec', 'serpent.subkeys'):
         klen, k = operand_sv(a[0])
         ok = klen <= 256
@@ -142,9 +143,17 @@ def check_impl(line, res):
 
 
 # ---------------------------------------------------------------------------------------------
-KATS = [('8000000000000000000000000000000000000000000000000000000000000000', '00000000000000000000000000000000'),
-        ('4000000000000000000000000000000000000000000000000000000000000000', '00000000000000000000000000000000'),
-        ('1111111111111111111111111111111111111111111111111111111111111111', '11111111111111111111111111111111')]
+# known answers: the three NESSIE Serpent-256 vectors of tests/test_serpent.py, and NESSIE Serpent-128 / Serpent-192 set 1
+# vector 0 (short keys: exercises the 1-then-zeros padding)
+KATS = [('8000000000000000000000000000000000000000000000000000000000000000', '00000000000000000000000000000000', 'a223aa1288463c0e2be38ebd825616c0'),
+        ('4000000000000000000000000000000000000000000000000000000000000000', '00000000000000000000000000000000', 'eae1d405570174df7df2f9966d509159'),
+        ('1111111111111111111111111111111111111111111111111111111111111111', '11111111111111111111111111111111', 'a482eaa5d5771f2fdb2ea1a5f141b9e2'),
+        ('80000000000000000000000000000000', '00000000000000000000000000000000', '264e5481eff42a4606abda06c0bfda3d'),
+        ('800000000000000000000000000000000000000000000000', '00000000000000000000000000000000', '9e274ead9b737bb21efcfca548602689')]
+KAT_EXPECT = {}
+for _k, _p, _c in KATS:
+    KAT_EXPECT['serpent.enc x%s x%s' % (_k, _p)] = 'x' + _c
+    KAT_EXPECT['serpent.dec x%s x%s' % (_k, _c)] = 'x' + _p
 
 def keys_of_len(n, rng, k):
     """byte keys of length n: zero, all-one, single-bit (first, last, random position), k random"""
@@ -177,8 +186,8 @@ BITLENS = [1, 2, 5, 7, 9, 31, 32, 33, 63, 64, 65, 127, 128, 129, 160, 191, 192, 
 
 def cipher_cases(ops, tier, rng):
     q = tier == 'quick'
-    for kh, bh in KATS:
-        for op in ops: yield '%s x%s x%s' % (op, kh, bh), 'kat'
+    for kh, bh, ch in KATS:
+        for op in ops: yield '%s x%s x%s' % (op, kh, ch if op.endswith('dec') and not op.endswith('encdec') else bh), 'kat'
     # every byte length 0..32
     for n in range(0, 33):
         for key, kt in keys_of_len(n, rng, 1 if q else 4):
